@@ -193,7 +193,7 @@ def brief_action(a):
             extra = ':' + ','.join('%d' % v['data'][0] for v in a['spec']['pdvs'])
         return 'pdu%d%s%s' % (t, extra, '!' if a.get('eager') else '')
     if a['a'] == 'head':
-        return 'head(pdu%d,%d bytes)%s' % (a['spec']['t'], a['cut'], '!' if a.get('eager') else '')
+        return 'head(pdu%d,%d bytes)%s%s' % (a['spec']['t'], a['cut'], '!' if a.get('eager') else '', '+' if a.get('glue') else '')
     if a['a'] == 'user':
         return 'user:pdu%d' % a['pdu']['t'] if 'pdu' in a else 'user:msg(%d)' % len(a['msg'])
     if a['a'] == 'tick':
@@ -271,6 +271,8 @@ def walk(draw, max_len=30):
                 act = {'a': 'head', 'spec': act['spec'], 'cut': draw(st.integers(1, size - 1))}
             if draw(st.integers(0, 2)) == 0:
                 act['eager'] = True
+                if act['a'] in ('pdu', 'head') and draw(st.integers(0, 1)) == 0:
+                    act['glue'] = True          # ... in the very same segment as what came before
         else:
             if m.artim_running():
                 remaining = ulmodel.ARTIM_SECONDS - (now - m.artim)
@@ -413,7 +415,7 @@ def run(ctx):
                 for h in heads(model2):
                     if h['cut'] < 6:
                         continue
-                    jobs.append({'role': role, 'depth': depth - 1, 'prefix': prefix + [x, dict(h, eager=True)], 'eager': False,
+                    jobs.append({'role': role, 'depth': depth - 1, 'prefix': prefix + [x, dict(h, eager=True, glue=True)], 'eager': False,
                                  'max_pdu': 65536})
                     stalls += 1
     parallel(ctx, run_dfs, jobs)
